@@ -31,7 +31,13 @@ tolerance of the case.
   horoarc-artist    draw_horoarc: Arc on the reference horocycle between the
                     endpoints, avoiding the ideal centre.
   projective-artist ProjectiveDrawing.draw_point / draw_proj_segment /
-                    draw_polygon: affine chart coordinates after the transform.
+                    draw_polygon: affine chart coordinates after the transform;
+                    assume_affine=False: a polygon that crosses the chart's line at
+                    infinity twice becomes two patches, each holding exactly the
+                    vertices of one side at their chart coordinates and running off
+                    screen along the two crossing edges (reference clipping
+                    ref.draw.sign_runs / clipped_piece), also in composites mixed
+                    with polygons inside the chart.
   wrong-dimension   objects of dimension != 2 raise GeometryError, add nothing.
 """
 import math
@@ -51,7 +57,11 @@ RULE = ("cases = (draw method, model / chart, object class, composite shape, "
         "edge of reference radius 40..1e4 and infinite (both sides of "
         "RADIUS_THRESHOLD) / short edges / near-boundary vertices; segments and "
         "geodesics incl. custom radius_threshold; points; horospheres; horoarcs; "
-        "projective points, segments, polygons in charts 0..2; objects of dimension "
+        "projective points, segments, polygons in charts 0..2, composites of polygons "
+        "crossing the line at infinity at different vertex indices (assume_affine="
+        "False); sign classes of the homogeneous representatives (positive / negative "
+        "/ alternating per unit or per vertex) and the drawing transform written as "
+        "-A for every object kind; objects of dimension "
         "1 and 3; drawings that are not pyplot's current axes; non-trivial = "
         "distinct vertices (Klein separation >= 2e-3), inside the half-plane view "
         "when a vertical substitute is expected; distinct = distinct (method, model, "
@@ -69,6 +79,10 @@ ASSUMPTIONS = [
     "half-plane node tolerances follow the square-root rule of the library's "
     "chart at ideal points (3e-5 + 3e-7/sep, times the radius)",
     "a path may start at any vertex and must then visit the others in cyclic order",
+    "projective polygons crossing the chart's line at infinity are judged when they "
+    "cross it exactly twice (the edges are the segments s X_i + t X_{i+1}, s,t >= 0, "
+    "of the given representatives); the closing edge between the two off-screen "
+    "artificial vertices is not judged",
 ]
 DT = "geometry_tools/drawtools.py"
 ANCHORS = [(DT, q) for q in (
@@ -735,18 +749,23 @@ def setup(run):
         assume_affine = bool(call.bound().get("assume_affine", True))
         X = rd.apply_columns(A, data.reshape((-1,) + data.shape[-2:]))
         nv = X.shape[-2]
-        sg = np.sign(X[..., ci])
-        in_chart = np.all(sg == sg[..., :1], axis=-1) & (np.min(rd.chart_margin(X, ci), axis=-1) >= 0.02)
-        if not np.all(in_chart):
-            return m_proj.skip("polygon crossing the chart's line at infinity")
+        if np.min(rd.chart_margin(X, ci)) < 0.02:
+            return m_proj.skip("vertex near the chart's line at infinity")
+        runs = [rd.sign_runs(x, ci) for x in X]
+        nruns = np.array([len(r_) for r_ in runs])
+        in_chart = nruns == 1
+        if assume_affine and not np.all(in_chart):
+            return m_proj.skip("polygon crossing the chart's line at infinity drawn with assume_affine")
         if not assume_affine and ci != 0:
             return m_proj.skip("assume_affine=False is only defined for the standard chart")
+        if np.any(nruns > 2):
+            return m_proj.skip("polygon crossing the chart's line at infinity more than twice")
         pcs = [c for c in colls if isinstance(c, PolyCollection)]
         paths = [p for c in pcs for p in c.get_paths()]
-        W = rd.affine_chart(X, ci)
+        W = rd.affine_chart(X, ci)[in_chart]
         if len(paths) != len(W):
             return m_proj.fail("projective-artist/draw_polygon/wrong-number-of-paths",
-                               "%d paths for %d polygons (assume_affine=%s)"
+                               "%d paths for %d polygons inside the chart (assume_affine=%s)"
                                % (len(paths), len(W), assume_affine), case)
         worst = 0.0
         for p, w in zip(paths, W):
@@ -755,10 +774,81 @@ def setup(run):
                 return m_proj.fail("projective-artist/draw_polygon/wrong-vertex-count",
                                    "path has %d vertices for a %d-gon" % (len(v), nv), case)
             worst = max(worst, float(np.max(np.abs(v[:nv] - w) / (1 + np.abs(w)))))
-        judge(run, m_proj, worst, 1e-9,
-              "projective-artist/draw_polygon/not-at-chart-coordinates/chart%d" % ci,
-              "polygon vertices are not at their affine coordinates in chart %d after the "
-              "transform" % ci, case)
+        if len(W):
+            judge(run, m_proj, worst, 1e-9,
+                  "projective-artist/draw_polygon/not-at-chart-coordinates/chart%d" % ci,
+                  "polygon vertices are not at their affine coordinates in chart %d after the "
+                  "transform" % ci, case)
+        ncross = int(np.sum(~in_chart))
+        if ncross:
+            # polygons that cross the chart's line at infinity (assume_affine=False):
+            # every maximal run of vertices on one side is one drawn piece -- a patch
+            # holding exactly that run at its chart coordinates, closed off screen by
+            # artificial vertices that continue the two crossing edges (reference
+            # clipping rd.sign_runs / rd.clipped_piece).  Patches are matched to the
+            # pieces by content, not by position.  Seeded change C19-r4-1.
+            pre = "projective-artist/draw_polygon/nonaffine/"
+            if len(patches) != 2 * ncross:
+                return m_proj.fail(pre + "wrong-number-of-patches",
+                                   "%d patches for %d polygons that cross the line at infinity "
+                                   "twice (two pieces each)" % (len(patches), ncross), case)
+            xlim, ylim = drawing.xlim, drawing.ylim
+            free = [rd.open_vertices(p.get_xy() if hasattr(p, "get_xy") else p.get_path().vertices)
+                    for p in patches]
+            first_switch = set()
+            for k in np.flatnonzero(~in_chart):
+                sk = np.sign(X[k][:, ci])
+                first_switch.add(int(np.argmax(sk != sk[0])))
+                for rn in runs[k]:
+                    V, wp, wn = rd.clipped_piece(X[k], rn, ci)
+                    if min(np.linalg.norm(V[0] - wp), np.linalg.norm(V[-1] - wn)) < 1e-6:
+                        m_proj.skip("crossing edge with coincident chart coordinates")
+                        continue
+                    pcase = dict(case, polygon=int(k), homogeneous_vertices=X[k], run=rn,
+                                 expected_visible_vertices=V)
+                    hit = None
+                    for j, xy in enumerate(free):
+                        if xy is None or not np.all(np.isfinite(xy)):
+                            continue
+                        al = rd.piece_alignment(xy, V)
+                        if al is not None:
+                            hit = (j, al)
+                            break
+                    if hit is None:
+                        m_proj.fail(pre + "no-patch-holds-one-side-of-the-polygon",
+                                    "polygon %d of %d crosses the line at infinity: no drawn patch "
+                                    "has the %d vertices with x_%d %s 0 (and only those) at their "
+                                    "chart coordinates, consecutively and in order"
+                                    % (k, len(X), len(rn), ci, ">" if X[k][rn[0], ci] > 0 else "<"),
+                                    dict(pcase, patches=[f for f in free if f is not None]))
+                        continue
+                    j, al = hit
+                    free[j] = None
+                    dummies = al[len(V):]
+                    if len(dummies) < 2:
+                        m_proj.fail(pre + "piece-not-closed-off-screen",
+                                    "the patch of an unbounded piece has %d artificial vertices"
+                                    % len(dummies), dict(pcase, patch=al))
+                        continue
+                    visible = (dummies[:, 0] > xlim[0]) & (dummies[:, 0] < xlim[1]) & \
+                        (dummies[:, 1] > ylim[0]) & (dummies[:, 1] < ylim[1])
+                    m_proj.require(not np.any(visible), pre + "artificial-vertex-inside-the-view",
+                                   "an artificial vertex closing an unbounded piece is inside the "
+                                   "drawing's view", dict(pcase, patch=al))
+                    off1, along1 = rd.ray_defect(dummies[0], V[-1], wn)
+                    off2, along2 = rd.ray_defect(dummies[-1], V[0], wp)
+                    if along1 > 0 and along2 > 0:
+                        judge(run, m_proj, max(off1, off2), 1e-9, pre + "piece-leaves-the-crossing-edge",
+                              "the boundary of an unbounded piece does not run to infinity along "
+                              "the polygon's edge that crosses the line at infinity",
+                              dict(pcase, patch=al))
+                    else:
+                        m_proj.fail(pre + "piece-continues-on-the-wrong-side",
+                                    "the boundary of an unbounded piece runs from its end vertex "
+                                    "towards the neighbour across the line at infinity instead of "
+                                    "away from it", dict(pcase, patch=al))
+            run.note_class("proj.draw_polygon/nonaffine", nv, ncross, int(np.sum(in_chart)),
+                           "distinct-switch-indices" if len(first_switch) > 1 else "one-switch-index")
         run.note_class("proj.draw_polygon", ci, nv, data.shape[:-2], assume_affine)
     attach.wrap_attr(run, D.ProjectiveDrawing, "draw_polygon", h_ppolygon, pre=snapshot)
 
